@@ -2,6 +2,7 @@ import OptunaVerif.Generated.Nsga2Src
 import OptunaVerif.Model.Nsga2
 import OptunaVerif.Lemmas.Nsga2
 import OptunaVerif.Lemmas.Nsga2Crowd
+import OptunaVerif.Lemmas.Nsga2Mirror
 import OptunaVerif.Lemmas.Rank
 import OptunaVerif.Props.C09
 /-!
@@ -17,8 +18,11 @@ instance unless `xnum` is named):
                                                 `rank_constrained_eq_spec`) on the order-embedded loss rows
 * `crowding_boundary_inf`                       the unique extreme individual of an objective has distance `inf`
 * `crowding_boundary_tie_at_neg_inf_witness`    … exactly as coded: with two `-inf` entries the first one gets `0`
-* `crowding_sort_descending`                    `_crowding_distance_sort` lists distances in non-increasing order, hence
-                                                the `inf` individuals first
+* `crowding_sort_descending`                    `_crowding_distance_sort` (key `(-distance, number)`, after the repair of F-C13-1)
+                                                lists distances in non-increasing order — the `inf` individuals first —,
+                                                equal distances by ascending trial number
+* `crowding_sort_order_independent`, `elite_set_order_independent`   for pairwise-distinct values per objective the sorted
+                                                front, and the elite population as a set, do not depend on the input order
 -/
 namespace OptunaVerif.C15Nsga
 open OptunaVerif OptunaVerif.Nsga2 OptunaVerif.Rank OptunaVerif.Hypervolume List
@@ -97,10 +101,11 @@ theorem elite_size_call (e : Enc) (popSize : Nat) (dirs : List Bool) (constraine
         simpa using this
       exact ⟨elite_size xnum popSize ranks pop hlen, (elite_distinct_members xnum popSize ranks pop hlen).1⟩
 
--- non-vacuity: four trials in two fronts, population size 3: the first front whole, one of the second
+-- non-vacuity: four trials in two fronts, population size 3: the first front whole, one of the second (both of its
+-- members are at distance inf: the smaller number wins)
 example : (elite ⟨1, 10⟩ 3 [false, false] false
     [⟨0, [.fin 0, .fin 1], none, true, []⟩, ⟨1, [.fin 1, .fin 0], none, true, []⟩,
-     ⟨2, [.fin 2, .fin 2], none, true, []⟩, ⟨3, [.fin 1, .fin 3], none, true, []⟩]).map (·.map (·.number)) = some [0, 1, 3] := by
+     ⟨2, [.fin 2, .fin 2], none, true, []⟩, ⟨3, [.fin 1, .fin 3], none, true, []⟩]).map (·.map (·.number)) = some [0, 1, 2] := by
   decide +kernel
 
 /-! ## 2. whole fronts first -/
@@ -146,7 +151,7 @@ theorem elite_fronts_monotone {α : Type} (N : Num α) (popSize : Nat) (ranks : 
       rw [mem_take_iff_getElem]
       exact ⟨ry, by omega, rfl⟩
 
--- non-vacuity (same population as above): rank-1 trial 3 is selected, so the rank-0 trials 0 and 1 are
+-- non-vacuity (same population as above): rank-1 trial 2 is selected, so the rank-0 trials 0 and 1 are
 example : calcRank 2 [[0, 1], [1, 0], [2, 2], [1, 3]] (some 4) = [0, 0, 1, 1] := by decide +kernel
 
 /-- **elite_ranks_are_peeling_ranks.**  The ranks the selection uses are C15's peeling ranks of the (order-embedded)
@@ -211,14 +216,45 @@ theorem crowding_boundary_tie_at_neg_inf_witness :
     (calcCrowding xnum [⟨0, [.ninf], none, true, []⟩, ⟨1, [.ninf], none, true, []⟩, ⟨2, [.fin 3], none, true, []⟩]).2
       = [(0, .fin 0), (1, .pinf), (2, .pinf)] := by decide +kernel
 
-/-- **crowding_sort_descending.**  After `_crowding_distance_sort` the crowding distances (each a non-negative
-rational or `+inf`) are listed in non-increasing order; the list is a permutation of the front. -/
+/-- **crowding_sort_descending.**  After `_crowding_distance_sort` (sort key `(-distance, number)`) the list is a
+permutation of the front, every crowding distance is a non-negative rational or `+inf`, and for `a` before `b`:
+the distance of `a` is not smaller, and if the distances are equal the number of `a` is not larger. -/
 theorem crowding_sort_descending (pop : List (Ind XVal)) (hnn : NoNaNPop pop) :
     (crowdingSort xnum pop).Perm pop ∧
     (∀ n, Good (lookupD xnum n (calcCrowding xnum pop).2)) ∧
     (crowdingSort xnum pop).Pairwise (fun a b =>
-      xlt (lookupD xnum a.number (calcCrowding xnum pop).2) (lookupD xnum b.number (calcCrowding xnum pop).2) = false) :=
+      xlt (lookupD xnum a.number (calcCrowding xnum pop).2) (lookupD xnum b.number (calcCrowding xnum pop).2) = false ∧
+      (lookupD xnum a.number (calcCrowding xnum pop).2 = lookupD xnum b.number (calcCrowding xnum pop).2 →
+        a.number ≤ b.number)) :=
   crowdingSort_desc pop hnn
+
+/-- **crowding_sort_order_independent.**  A front of trials with distinct numbers, equally many objective values, no NaN
+and no per-objective ties is sorted to the SAME list in whatever order it is handed over: the distances do not
+depend on the input order, and the final order is a function of (distance, number). -/
+theorem crowding_sort_order_independent (p0 p0' : Ind XVal) (t t' : List (Ind XVal)) (hp : (p0' :: t').Perm (p0 :: t))
+    (hlen : p0'.values.length = p0.values.length) (hnn : NoNaNPop (p0 :: t))
+    (hnum : ((p0 :: t).map (·.number)).Nodup) (htf : ∀ i < p0.values.length, TieFree (p0 :: t) i) :
+    crowdingSort xnum (p0' :: t') = crowdingSort xnum (p0 :: t) :=
+  crowdingSort_perm_invariant p0 p0' t t' hp hlen hnn hnum htf
+
+/-- **elite_set_order_independent.**  For a population with distinct numbers, no NaN, `d` objective values each and
+pairwise-distinct values per objective, the elite population does not depend on the order in which the population is
+listed (the rank of a trial travelling with it): the two results are permutations of each other — same SET, and in
+fact the same list up to the order inside the fronts that are taken whole.  (Before the repair of F-C13-1 this was
+false: ties at distance `inf` were cut according to the input order.) -/
+theorem elite_set_order_independent (d k : Nat) (ranks ranks' : List Nat) (pop pop' : List (Ind XVal))
+    (hz : (pop'.zip ranks').Perm (pop.zip ranks)) (hl : ranks.length = pop.length) (hl' : ranks'.length = pop'.length)
+    (hok : FrontOK d pop) : (eliteWith xnum k ranks' pop').Perm (eliteWith xnum k ranks pop) :=
+  eliteWith_perm_invariant d k ranks ranks' pop pop' hz hl hl' hok
+
+-- non-vacuity: one front of four trials (three at distance inf), population size 2, listed in two orders: {0, 1} both times
+example :
+    let a : Ind XVal := ⟨0, [.fin 0, .fin 9], none, true, []⟩
+    let b : Ind XVal := ⟨1, [.fin 9, .fin 0], none, true, []⟩
+    let c : Ind XVal := ⟨2, [.fin 4, .fin 5], none, true, []⟩
+    let e : Ind XVal := ⟨3, [.fin 5, .fin 3], none, true, []⟩
+    (eliteWith xnum 2 [0, 0, 0, 0] [a, b, c, e]).map (·.number) = [0, 1] ∧
+    (eliteWith xnum 2 [0, 0, 0, 0] [e, c, b, a]).map (·.number) = [0, 1] := by decide +kernel
 
 /-- … hence the individuals of infinite distance come first: nobody of finite distance stands before one of
 infinite distance, and the truncation `individuals[:n]` drops finite-distance individuals first. -/
@@ -229,7 +265,7 @@ theorem crowding_inf_kept_first (pop : List (Ind XVal)) (hnn : NoNaNPop pop) (l1
   obtain ⟨_, hg, hp⟩ := crowding_sort_descending pop hnn
   rw [hs, pairwise_append] at hp
   intro a ha
-  have h1 := hp.2.2 a ha b (by simp)
+  have h1 := (hp.2.2 a ha b (by simp)).1
   rw [hb] at h1
   have h2 := hg a.number
   generalize lookupD xnum a.number (calcCrowding xnum pop).2 = v at h1 h2
@@ -262,7 +298,7 @@ under test that the theorems of this file speak about, as they were when `Model/
 def modelledKeys : List (String × Nat) := [
   ("optuna/samplers/nsgaii/_elite_population_selection_strategy.py :: NSGAIIElitePopulationSelectionStrategy.__call__", 719216067323116413),
   ("optuna/samplers/nsgaii/_elite_population_selection_strategy.py :: _calc_crowding_distance", 60815413682515448),
-  ("optuna/samplers/nsgaii/_elite_population_selection_strategy.py :: _crowding_distance_sort", 535650773810886016),
+  ("optuna/samplers/nsgaii/_elite_population_selection_strategy.py :: _crowding_distance_sort", 458905545629052035),
   ("optuna/samplers/nsgaii/_elite_population_selection_strategy.py :: _rank_population", 645381497369769622),
   ("optuna/samplers/nsgaii/_constraints_evaluation.py :: _constrained_dominates", 1053739708068113442),
   ("optuna/samplers/nsgaii/_constraints_evaluation.py :: _evaluate_penalty", 582851371091823490),
